@@ -27,8 +27,11 @@ def one(diff):
         sh(f"git -C /repo worktree remove --force {wt}"); shutil.rmtree(wt, ignore_errors=True)
 diffs = []
 for d in sys.argv[1:]:
-    diffs += sorted(glob.glob(os.path.join(d, "refactor-*.diff")))
-with ThreadPoolExecutor(4) as ex:
+    if os.path.isfile(d):
+        diffs.append(os.path.abspath(d))
+    else:
+        diffs += sorted(glob.glob(os.path.join(d, "refactor-*.diff"))) or sorted(glob.glob(os.path.join(d, "*.diff")))
+with ThreadPoolExecutor(5) as ex:
     for diff, fired in ex.map(one, diffs):
         print(("ALARM " if fired else "quiet ") + diff)
         for p, rs in fired.items() if isinstance(fired, dict) else []:
